@@ -196,18 +196,24 @@ class RefCheck:
         ref = self.ref
         if tok == "E:stream4" and ref is not None and self.get_pending is not None:
             # the call raised in the middle of fetching and returned nothing.  Whatever it took off the stream
-            # must still be ahead of the caller (read-ahead ++ undelivered stream == what the reference expects next).
+            # (read(n), read(), readline(), next alike — /repo 3937ccc) must still be ahead of the caller (read-ahead ++ undelivered stream == what the reference expects next).
             expected = ref.getvalue()[ref.tell():]
             actual = self.get_pending()
             if actual != expected:
                 gone = len(expected) - len(actual)
                 if k in ("i", "L", "L0"):
-                    pass  # list(f) / readlines(): the lines collected before the exception are lost with the list
+                    # list(f) / readlines(): the LINES already collected are lost with the list that was being
+                    # built (inherent in the API); but the line being fetched when the exception hit must still
+                    # be ahead of the caller, i.e. what is left is a suffix of what was expected, cut at a line end
+                    cut = len(expected) - len(actual)
+                    if not (gone >= 0 and expected.endswith(actual) and (cut == 0 or expected[cut - 1:cut] == b"\n" or not actual)):
+                        self.bad.append(("exception-drops-data:readlines/iteration", op, "%d bytes gone" % gone,
+                                         "only whole lines already collected may be missing"))
                 elif k in ("r0",) or (k == "r" and (a is None or a < 0)):
                     self.bad.append(("exception-drops-data:read()", op, "%d bytes gone" % gone, "nothing may be lost"))
                 elif k in ("l", "l0", "n"):
                     self.bad.append(("exception-drops-data:readline", op, "%d bytes gone" % gone, "nothing may be lost"))
-                else:  # read(n) / readinto: keeps every fetched chunk in the read-ahead
+                else:  # read(n) / readinto
                     self.bad.append(("exception-drops-data:read(n)", op, "%d bytes gone" % gone, "nothing may be lost"))
                 self.ref = io.BytesIO(actual)   # go on from what is really there
             return
@@ -730,13 +736,15 @@ META = {
               "BufferedFile subclass with PRNG short reads/writes and three EOF styles; thorough tier also a real "
               "ChannelFile over a real Transport/Channel pair with recorded chunking."),
     "note": ("Streams whose _read RAISES (socket.timeout / OSError) at arbitrary points of the chunk sequence are part of "
-             "every run (PV/Model/ChanX.lean, 1500 programs, the caller retries): proved read_n_keeps_data_on_exception "
-             "(a read(n) that raises leaves every fetched byte in the read-ahead; one that returns hands out exactly "
-             "the next n pending bytes), oracle = everything returned across calls is the stream in order. read() and "
-             "readline()/next hold fetched chunks in a local and LOSE them when a later fetch raises: two listed known "
-             "findings with machine-checked witnesses (read_all_drops_data_on_exception_witness, "
-             "readline_drops_data_on_exception_witness); list(f)/readlines() lose the lines collected so far with the "
-             "list they were building (inherent in the API, not reported). " +
+             "every run (PV/Model/ChanX.lean, 1500 programs, the caller retries); oracle for read(n), read(), readline(), "
+             "next alike: everything returned across calls is the stream in order (a call that raised returns nothing "
+             "and must leave every fetched byte ahead of the caller); list(f)/readlines() may only lose whole lines "
+             "already collected in the list they were building. Proved: read_n_keeps_data_on_exception. read() and "
+             "readline() dropped fetched chunks when a later fetch raised until /repo 3937ccc (found by this check, "
+             "fixed): the model mirrors the repaired code (tied by correspondence incl. private state, retry examples "
+             "checked by decide), legacy_*_witness theorems are about the old code (readAllOld/readlineOld); the "
+             "general no-loss theorem for read()/readline() over a raising stream is NOT proved (correspondence + oracle "
+             "only). " +
              "The BufferedFile subclasses the property's wrappers actually are — ChannelFile, ChannelStderrFile, "
              "ChannelStdinFile with their _read/_write/close overrides — are driven on every run over a recording "
              "channel (stream = what recv/recv_stderr delivered and sendall/sendall_stderr/shutdown_write received, in "
